@@ -10,17 +10,29 @@
 (* the age of its first record reaches the setting in force, when the      *)
 (* worker's timed wait on the queue expires, or when the sender is stopped.*)
 (*                                                                         *)
-(* A record is [id, size, time, eh]: size = length of its encoding, time = *)
-(* the caller-supplied record time (virtual; >= 1, 0 means "unset" in the  *)
-(* implementation), eh = a digest of its encoding (opaque to this module). *)
+(* A record is [id, time, bytes, ...]: bytes = its encoding (opaque here:  *)
+(* the pack layer defines it), time = the caller-supplied record time      *)
+(* (virtual; >= 1, 0 means "unset" in the implementation).                 *)
 (*                                                                         *)
-(* Memory is modelled so that ALIASING is expressible: a region is a       *)
-(* sequence of segments <<record id, lo, hi>> ("bytes lo..hi of that       *)
-(* record's encoding"); the sender's reusable buffer is region 1 and every *)
-(* SendDirect call allocates a fresh one.  Resetting a buffer keeps the    *)
-(* region and moves the write offset back to 0.  An emitted pack either    *)
-(* OWNS its payload (view = <<>>) or is a VIEW <<region, length>> of a     *)
-(* region; its content is always read through the view.                    *)
+(* The owner of the reusable buffer (the worker goroutine in queue mode,   *)
+(* the caller of Append otherwise) is a little program; there is ONE       *)
+(* ACTION PER STEP of it (wpc):                                            *)
+(*   top   the select on the context: cancellation seen or not             *)
+(*   get   the timed wait on the queue: a record (-> app) or expiry        *)
+(*   app   encode the record at the end of the buffer, count it, decide    *)
+(*   flush build the pack from the buffer bytes, gzip, HAND OVER (-> sent) *)
+(*   sent  the client returned: reset buffer, counter, first time          *)
+(*   drain cancellation seen: take what is still queued, flush, -> fin     *)
+(*   fin   return (-> done)                                                *)
+(* Producers (Add), the caller of SendDirect, configuration updates, the   *)
+(* stop request and the client's behaviour interleave with these steps.    *)
+(*                                                                         *)
+(* Memory is modelled so that ALIASING is expressible: mem is a sequence   *)
+(* of regions (byte sequences: the backing arrays); mem[1] belongs to the  *)
+(* reusable buffer, every SendDirect call allocates a fresh one.  A reset  *)
+(* keeps the region and moves the write offset back to 0.  A pack either   *)
+(* OWNS its payload (view = <<>>) or is a VIEW <<region, length>>; what    *)
+(* the client reads is always read through the view.                       *)
 (*                                                                         *)
 (* Design = "copy"  : a pack handed to the client owns its bytes (the      *)
 (*                    repaired implementation).                            *)
@@ -28,23 +40,30 @@
 (*                    uncompressed pack is a view of the reusable region   *)
 (*                    (the implementation as found; kept to document the   *)
 (*                    counterexample to HandedOverIsImmutable).            *)
-(* StopPolicy = "drain"   : on stop the worker appends what is still       *)
-(*                          queued, flushes, exits (repaired).             *)
-(* StopPolicy = "abandon" : flushes the buffer and exits (as found).       *)
+(* StopPolicy = "drain" / "abandon" : on cancellation the worker appends   *)
+(*                    what is still queued before the last flush (repaired)*)
+(*                    / flushes the buffer and returns (as found).         *)
+(* Creation = "defaults" / "zeroed" : a sender created without settings    *)
+(*                    runs with the built-in defaults (repaired) / with    *)
+(*                    the zero values of the unset options (as found).     *)
 (*                                                                         *)
 (* What the property demands about WHEN a batch is flushed is one-sided:   *)
 (* a buffer that has reached the size or the waiting time in force must be *)
 (* flushed by the very append that made it so (MustFlush); flushing        *)
 (* earlier is never forbidden (the worker's timed wait may expire at any   *)
 (* moment; a waiting time <= 0 has no meaning as a threshold and is not    *)
-(* demanded).  Every flushing step therefore takes a decision `fl` that    *)
+(* demanded).  The appending step therefore takes a decision `fl` that     *)
 (* must be TRUE when MustFlush holds and is free otherwise.                *)
 (***************************************************************************)
 EXTENDS Integers, Sequences, FiniteSets
 
-CONSTANTS Design, StopPolicy
+CONSTANTS Design, StopPolicy, Creation
 
 Defaults == [maxBuf |-> 65536, maxWait |-> 5000, zipMin |-> 100, qCap |-> 1000]
+Zeroed   == [maxBuf |-> 0, maxWait |-> 0, zipMin |-> 0, qCap |-> 0]
+
+\* a configuration update names some of the settings; a setting it does not name is the built-in default
+Resolve(g) == [k \in DOMAIN Defaults |-> IF k \in DOMAIN g THEN g[k] ELSE Defaults[k]]
 
 VARIABLES
   mode,        \* "none" (not created) | "queue" (worker goroutine) | "direct" (no queue, no worker)
@@ -53,221 +72,214 @@ VARIABLES
   queue,       \* records waiting for the worker
   accB,        \* history: records accepted for the reusable buffer, in order (queue path and Append calls)
   refused,     \* ids refused by a full queue (never accepted, never to be emitted)
-  mem,         \* sequence of regions; mem[1] is the sender's reusable buffer
-  live,        \* records written into region 1 since its last reset
+  mem,         \* sequence of regions; mem[1] is the reusable buffer's backing array
+  blen,        \* bytes of mem[1] in use (buffer.Len())
+  live,        \* records written into the reusable buffer since its last reset
   count,       \* the sender's record counter
   firstTime,   \* time of the first record in the buffer, 0 = none
-  acall,       \* <<r>> while an Append(r) call from outside is in progress (mode "direct")
-  dactive, dq, dlive, dcount, drid,   \* the SendDirect call in progress: rest of its argument, its buffer
+  wpc,         \* the buffer owner's program counter (see above; "off" = nobody is inside)
+  wcur,        \* <<r>> : the record being appended
+  wret,        \* where the owner continues after the append / flush in progress
+  dactive, dq, drid,   \* the SendDirect call in progress: what is left of its argument, its region
   accD,        \* history: records handed to SendDirect, in order
   emitted,     \* packs handed to the client, in hand-over order
-  stopped,     \* "no" | "stopping" (context cancelled) | "done" (worker returned)
-  blocked      \* the client is holding the worker inside SendFlush (slow client)
+  stopped      \* "no" | "cancelling" (cancel called, not yet returned) | "stopping" (context cancelled)
 
-vars == <<mode, settings, configured, queue, accB, refused, mem, live, count, firstTime, acall,
-          dactive, dq, dlive, dcount, drid, accD, emitted, stopped, blocked>>
+vars == <<mode, settings, configured, queue, accB, refused, mem, blen, live, count, firstTime, wpc, wcur, wret,
+          dactive, dq, drid, accD, emitted, stopped>>
 
 -----------------------------------------------------------------------------
-(* segments *)
+(* bytes *)
+Size(r) == Len(r.bytes)
+
 RECURSIVE SumSize(_)
-SumSize(rs) == IF rs = <<>> THEN 0 ELSE rs[1].size + SumSize(Tail(rs))
-
-SegLen(s) == s[3] - s[2] + 1
-
-RECURSIVE TakeBytes(_, _)
-TakeBytes(m, n) ==      \* the first n bytes of m (all of m if shorter)
-  IF n <= 0 \/ m = <<>> THEN <<>>
-  ELSE IF SegLen(m[1]) <= n THEN <<m[1]>> \o TakeBytes(Tail(m), n - SegLen(m[1]))
-  ELSE << <<m[1][1], m[1][2], m[1][2] + n - 1>> >>
-
-RECURSIVE DropBytes(_, _)
-DropBytes(m, n) ==      \* m without its first n bytes
-  IF m = <<>> THEN <<>>
-  ELSE IF n <= 0 THEN m
-  ELSE IF SegLen(m[1]) <= n THEN DropBytes(Tail(m), n - SegLen(m[1]))
-  ELSE << <<m[1][1], m[1][2] + n, m[1][3]>> >> \o Tail(m)
-
-RecSeg(r) == IF r.size > 0 THEN << <<r.id, 1, r.size>> >> ELSE <<>>
-
-\* write the encoding of r at offset off (off never exceeds the bytes present)
-WriteAt(m, off, r) == TakeBytes(m, off) \o RecSeg(r) \o DropBytes(m, off + r.size)
+SumSize(rs) == IF rs = <<>> THEN 0 ELSE Size(rs[1]) + SumSize(Tail(rs))
 
 RECURSIVE Encoding(_)
-Encoding(rs) == IF rs = <<>> THEN <<>> ELSE RecSeg(rs[1]) \o Encoding(Tail(rs))
+Encoding(rs) == IF rs = <<>> THEN <<>> ELSE rs[1].bytes \o Encoding(Tail(rs))
+
+\* region m with b written at offset off (0-based); bytes beyond stay what they were
+WriteAt(m, off, b) ==
+  LET n == IF Len(m) > off + Len(b) THEN Len(m) ELSE off + Len(b)
+  IN [i \in 1..n |-> IF i > off /\ i <= off + Len(b) THEN b[i - off] ELSE m[i]]
 
 -----------------------------------------------------------------------------
 (* packs *)
-\* the repaired hand-over: the pack owns its payload
-PackCopy(path, rs, n, rid, m, k) ==
-  [path |-> path, recs |-> rs, n |-> n, ulen |-> SumSize(rs),
-   zipped |-> SumSize(rs) >= settings.zipMin, zmin |-> settings.zipMin,
-   snap |-> TakeBytes(m, SumSize(rs)), view |-> <<>>, kept |-> k]
+\* the repaired hand-over: the pack owns its payload (the first len bytes of region rid as they are now)
+PackCopy(path, rs, n, rid, len, k) ==
+  [path |-> path, recs |-> rs, n |-> n, ulen |-> len,
+   zipped |-> len >= settings.zipMin, zmin |-> settings.zipMin,
+   snap |-> SubSeq(mem'[rid], 1, len), view |-> <<>>, kept |-> k]
 
 \* the hand-over as found: Records = buffer.Bytes(); only gzip makes new bytes
-PackAlias(path, rs, n, rid, m, k) ==
-  [PackCopy(path, rs, n, rid, m, k) EXCEPT
-     !.view = IF SumSize(rs) >= settings.zipMin THEN <<>> ELSE <<rid, SumSize(rs)>>]
+PackAlias(path, rs, n, rid, len, k) ==
+  [PackCopy(path, rs, n, rid, len, k) EXCEPT
+     !.view = IF len >= settings.zipMin THEN <<>> ELSE <<rid, len>>]
 
-Pack(path, rs, n, rid, m, k) ==
-  IF Design = "alias" THEN PackAlias(path, rs, n, rid, m, k) ELSE PackCopy(path, rs, n, rid, m, k)
+\* NOTE: reads mem' (the hand-over step may itself write the region)
+Pack(path, rs, n, rid, len, k) ==
+  IF Design = "alias" THEN PackAlias(path, rs, n, rid, len, k) ELSE PackCopy(path, rs, n, rid, len, k)
 
 \* what the client reads when it looks at the pack NOW
-Content(p) == IF p.view = <<>> THEN p.snap ELSE TakeBytes(mem[p.view[1]], p.view[2])
+Content(p) == IF p.view = <<>> THEN p.snap ELSE SubSeq(mem[p.view[1]], 1, p.view[2])
 
 -----------------------------------------------------------------------------
 Init ==
   /\ mode = "none" /\ settings = Defaults /\ configured = FALSE
   /\ queue = <<>> /\ accB = <<>> /\ refused = {}
-  /\ mem = << <<>> >> /\ live = <<>> /\ count = 0 /\ firstTime = 0 /\ acall = <<>>
-  /\ dactive = FALSE /\ dq = <<>> /\ dlive = <<>> /\ dcount = 0 /\ drid = 0 /\ accD = <<>>
-  /\ emitted = <<>> /\ stopped = "no" /\ blocked = FALSE
+  /\ mem = << <<>> >> /\ blen = 0 /\ live = <<>> /\ count = 0 /\ firstTime = 0
+  /\ wpc = "off" /\ wcur = <<>> /\ wret = "off"
+  /\ dactive = FALSE /\ dq = <<>> /\ drid = 0 /\ accD = <<>>
+  /\ emitted = <<>> /\ stopped = "no"
 
 \* creation: given = FALSE (nothing supplied: the built-in defaults stay in force) or four explicit settings s
 New(m, given, s) ==
   /\ mode = "none" /\ m \in {"queue", "direct"}
   /\ mode' = m
+  /\ wpc' = IF m = "queue" THEN "top" ELSE "off"
   /\ IF given THEN settings' = s /\ configured' = TRUE
-              ELSE UNCHANGED <<settings, configured>>
-  /\ UNCHANGED <<queue, accB, refused, mem, live, count, firstTime, acall,
-                 dactive, dq, dlive, dcount, drid, accD, emitted, stopped, blocked>>
+     ELSE IF Creation = "zeroed" THEN settings' = Zeroed /\ UNCHANGED configured
+     ELSE UNCHANGED <<settings, configured>>
+  /\ UNCHANGED <<queue, accB, refused, mem, blen, live, count, firstTime, wcur, wret,
+                 dactive, dq, drid, accD, emitted, stopped>>
 
-\* a configuration update: c = the resolved settings (a key the configuration does not
-\* mention resolves to its built-in default)
-ApplyConfig(c) ==
+\* a configuration update naming the settings in DOMAIN g
+ApplyConfig(g) ==
   /\ mode # "none"
-  /\ settings' = c /\ configured' = TRUE
-  /\ UNCHANGED <<mode, queue, accB, refused, mem, live, count, firstTime, acall,
-                 dactive, dq, dlive, dcount, drid, accD, emitted, stopped, blocked>>
+  /\ settings' = Resolve(g) /\ configured' = TRUE
+  /\ UNCHANGED <<mode, queue, accB, refused, mem, blen, live, count, firstTime, wpc, wcur, wret,
+                 dactive, dq, drid, accD, emitted, stopped>>
 
 QueueHasRoom == settings.qCap <= 0 \/ Len(queue) < settings.qCap
 
-\* the critical section of the queue's Put
+\* the critical section of the queue's Put (a refused record was never accepted)
 Add(r) ==
   /\ mode = "queue" /\ stopped = "no"
   /\ IF QueueHasRoom
        THEN queue' = Append(queue, r) /\ accB' = Append(accB, r) /\ UNCHANGED refused
        ELSE refused' = refused \cup {r.id} /\ UNCHANGED <<queue, accB>>
-  /\ UNCHANGED <<mode, settings, configured, mem, live, count, firstTime, acall,
-                 dactive, dq, dlive, dcount, drid, accD, emitted, stopped, blocked>>
+  /\ UNCHANGED <<mode, settings, configured, mem, blen, live, count, firstTime, wpc, wcur, wret,
+                 dactive, dq, drid, accD, emitted, stopped>>
+
+\* the stop request: cancel() is called ... and has returned
+StopCall ==
+  /\ mode = "queue" /\ stopped = "no" /\ stopped' = "cancelling"
+  /\ UNCHANGED <<mode, settings, configured, queue, accB, refused, mem, blen, live, count, firstTime, wpc, wcur, wret,
+                 dactive, dq, drid, accD, emitted>>
+StopRet ==
+  /\ stopped = "cancelling" /\ stopped' = "stopping"
+  /\ UNCHANGED <<mode, settings, configured, queue, accB, refused, mem, blen, live, count, firstTime, wpc, wcur, wret,
+                 dactive, dq, drid, accD, emitted>>
+
+-----------------------------------------------------------------------------
+(* the owner of the reusable buffer, step by step *)
 
 \* the buffer holding rs (first record at time ft) has, with the append of r, reached a limit in force
-SizeDue(rs)      == SumSize(rs) >= settings.maxBuf
+SizeDue(n)       == n >= settings.maxBuf
 TimeDue(ft, r)   == settings.maxWait > 0 /\ r.time - ft >= settings.maxWait
-MustFlush(rs, ft, r) == SizeDue(rs) \/ TimeDue(ft, r)
+MustFlush(n, ft, r) == SizeDue(n) \/ TimeDue(ft, r)
 
-\* would the append of r to the reusable buffer / of the next argument to the direct buffer reach a limit?
-AppendDue(r) == MustFlush(Append(live, r), IF firstTime = 0 THEN r.time ELSE firstTime, r)
-DirectDue    == SizeDue(Append(dlive, Head(dq)))
+\* enter the flush: nothing to do for an empty buffer
+GoFlush(ret) == IF live = <<>> THEN wpc' = ret /\ UNCHANGED wret
+                ELSE wpc' = "flush" /\ wret' = ret
 
-\* Append: encode r into the reusable region, count it, flush if due (fl: see the header).
-\* k = the client keeps the pack.
-DoAppend(r, k, fl) ==
-  LET m1 == WriteAt(mem[1], SumSize(live), r)
-      l1 == Append(live, r)
-      ft == IF firstTime = 0 THEN r.time ELSE firstTime
-  IN /\ MustFlush(l1, ft, r) => fl
-     /\ mem' = [mem EXCEPT ![1] = m1]
-     /\ IF fl
-          THEN /\ emitted' = Append(emitted, Pack("b", l1, count + 1, 1, m1, k))
-               /\ live' = <<>> /\ count' = 0 /\ firstTime' = 0
-          ELSE /\ live' = l1 /\ count' = count + 1 /\ firstTime' = ft
-               /\ UNCHANGED emitted
+wOnly == <<mode, settings, configured, accB, refused, dactive, dq, drid, accD, stopped>>
 
-\* flush of the reusable buffer (no-op when empty)
-FlushBuf(k) ==
-  IF live = <<>> THEN UNCHANGED <<emitted, live, count, firstTime>>
-  ELSE /\ emitted' = Append(emitted, Pack("b", live, count, 1, mem[1], k))
-       /\ live' = <<>> /\ count' = 0 /\ firstTime' = 0
+\* the select: st = the stop state at the moment of the select; a completed cancellation is seen,
+\* no cancellation is not; saw = the branch taken
+WTop(saw, st) ==
+  /\ wpc = "top"
+  /\ (st = "no" => ~saw) /\ (st = "stopping" => saw)
+  /\ IF ~saw THEN wpc' = "get" /\ UNCHANGED wret
+     ELSE IF StopPolicy = "drain" THEN wpc' = "drain" /\ UNCHANGED wret
+     ELSE GoFlush("fin")
+  /\ UNCHANGED <<queue, mem, blen, live, count, firstTime, wcur, emitted>> /\ UNCHANGED wOnly
 
-WorkerFree == mode = "queue" /\ ~blocked /\ stopped # "done"
+\* the timed wait returned the head of the queue
+WTake ==
+  /\ wpc \in {"get", "drain"} /\ queue # <<>>
+  /\ wcur' = <<Head(queue)>> /\ queue' = Tail(queue)
+  /\ wpc' = "app" /\ wret' = IF wpc = "get" THEN "top" ELSE "drain"
+  /\ UNCHANGED <<mem, blen, live, count, firstTime, emitted>> /\ UNCHANGED wOnly
 
-\* worker: dequeue one record and append it.  g = the client blocks the worker in this hand-over
-Take(k, g, fl) ==
-  /\ WorkerFree /\ queue # <<>>
-  /\ queue' = Tail(queue)
-  /\ DoAppend(Head(queue), k, fl)
-  /\ blocked' = (g /\ fl)
-  /\ UNCHANGED <<mode, settings, configured, accB, refused, acall, dactive, dq, dlive, dcount, drid, accD, stopped>>
-
-\* worker: the timed wait on the queue expired (decided at some earlier poll: no guard on queue)
-Idle(k, g) ==
-  /\ WorkerFree /\ live # <<>>
-  /\ FlushBuf(k)
-  /\ blocked' = g
-  /\ UNCHANGED <<mode, settings, configured, queue, accB, refused, mem, acall,
-                 dactive, dq, dlive, dcount, drid, accD, stopped>>
-
-Stop ==
-  /\ mode = "queue" /\ stopped = "no"
-  /\ stopped' = "stopping"
-  /\ UNCHANGED <<mode, settings, configured, queue, accB, refused, mem, live, count, firstTime, acall,
-                 dactive, dq, dlive, dcount, drid, accD, emitted, blocked>>
-
-\* worker: saw the cancellation; (drain policy: only once the queue is empty) flush and return
-Finish(k, g) ==
-  /\ WorkerFree /\ stopped = "stopping"
-  /\ (StopPolicy = "drain" => queue = <<>>)
-  /\ FlushBuf(k)
-  /\ stopped' = "done"
-  /\ blocked' = (g /\ live # <<>>)
-  /\ UNCHANGED <<mode, settings, configured, queue, accB, refused, mem, acall,
-                 dactive, dq, dlive, dcount, drid, accD>>
-
-Release ==
-  /\ blocked /\ blocked' = FALSE
-  /\ UNCHANGED <<mode, settings, configured, queue, accB, refused, mem, live, count, firstTime, acall,
-                 dactive, dq, dlive, dcount, drid, accD, emitted, stopped>>
+\* the timed wait expired (decided at its last poll: no guard on the queue)
+WIdle ==
+  /\ wpc = "get"
+  /\ GoFlush("top")
+  /\ UNCHANGED <<queue, mem, blen, live, count, firstTime, wcur, emitted>> /\ UNCHANGED wOnly
 
 \* Append(r) called from outside (no worker owns the buffer)
-AppendBegin(r) ==
-  /\ mode = "direct" /\ acall = <<>>
-  /\ acall' = <<r>> /\ accB' = Append(accB, r)
-  /\ UNCHANGED <<mode, settings, configured, queue, refused, mem, live, count, firstTime,
-                 dactive, dq, dlive, dcount, drid, accD, emitted, stopped, blocked>>
+AppendCall(r) ==
+  /\ mode = "direct" /\ wpc = "off"
+  /\ wcur' = <<r>> /\ accB' = Append(accB, r) /\ wpc' = "app" /\ wret' = "off"
+  /\ UNCHANGED <<mode, settings, configured, queue, refused, mem, blen, live, count, firstTime,
+                 dactive, dq, drid, accD, emitted, stopped>>
 
-AppendExec(k, fl) ==
-  /\ acall # <<>>
-  /\ DoAppend(acall[1], k, fl)
-  /\ acall' = <<>>
-  /\ UNCHANGED <<mode, settings, configured, queue, accB, refused,
-                 dactive, dq, dlive, dcount, drid, accD, stopped, blocked>>
+\* encode at the end of the buffer, count, note the first time, decide (fl: see the header)
+WAppend(fl) ==
+  /\ wpc = "app"
+  /\ LET r  == wcur[1]
+         ft == IF firstTime = 0 THEN r.time ELSE firstTime
+     IN /\ MustFlush(blen + Size(r), ft, r) => fl
+        /\ mem' = [mem EXCEPT ![1] = WriteAt(@, blen, r.bytes)]
+        /\ blen' = blen + Size(r) /\ live' = Append(live, r) /\ count' = count + 1 /\ firstTime' = ft
+        /\ wcur' = <<>>
+        /\ wpc' = IF fl THEN "flush" ELSE wret
+  /\ UNCHANGED <<queue, wret, emitted>> /\ UNCHANGED wOnly
 
-\* SendDirect(rs): a fresh call-local buffer, flushed whenever it reaches maxBuf and at the end
+\* drained: nothing is queued any more
+Drained == wpc = "drain" /\ queue = <<>>
+
+\* the hand-over of the reusable buffer's content.  k = the client keeps the pack
+WSend(k) ==
+  /\ (wpc = "flush" \/ (Drained /\ live # <<>>))
+  /\ UNCHANGED <<queue, mem, blen, live, count, firstTime, wcur>> /\ UNCHANGED wOnly
+  /\ emitted' = Append(emitted, Pack("b", live, count, 1, blen, k))
+  /\ wpc' = "sent" /\ wret' = IF wpc = "flush" THEN wret ELSE "fin"
+
+\* the client returned: reset
+WReset ==
+  /\ wpc = "sent"
+  /\ blen' = 0 /\ live' = <<>> /\ count' = 0 /\ firstTime' = 0
+  /\ wpc' = wret
+  /\ UNCHANGED <<queue, mem, wcur, wret, emitted>> /\ UNCHANGED wOnly
+
+\* the worker returns
+WExit ==
+  /\ (wpc = "fin" \/ (Drained /\ live = <<>>))
+  /\ wpc' = "done"
+  /\ UNCHANGED <<queue, mem, blen, live, count, firstTime, wcur, wret, emitted>> /\ UNCHANGED wOnly
+
+-----------------------------------------------------------------------------
+(* SendDirect(rs): a fresh call-local buffer, handed over whenever it reaches maxBuf and at the end *)
 DirectBegin(rs) ==
   /\ mode # "none" /\ ~dactive
   /\ dactive' = TRUE /\ dq' = rs /\ accD' = accD \o rs
   /\ mem' = Append(mem, <<>>) /\ drid' = Len(mem) + 1
-  /\ dlive' = <<>> /\ dcount' = 0
-  /\ UNCHANGED <<mode, settings, configured, queue, accB, refused, live, count, firstTime, acall,
-                 emitted, stopped, blocked>>
+  /\ UNCHANGED <<mode, settings, configured, queue, accB, refused, blen, live, count, firstTime, wpc, wcur, wret,
+                 emitted, stopped>>
 
-DStep(k, fl) ==
+\* how many of rs go into the next pack: up to and including the one that reaches the limit
+RECURSIVE PrefixLen(_, _, _)
+PrefixLen(rs, i, acc) ==
+  IF i > Len(rs) THEN Len(rs)
+  ELSE IF SizeDue(acc + Size(rs[i])) THEN i ELSE PrefixLen(rs, i + 1, acc + Size(rs[i]))
+
+DSend(k) ==
   /\ dactive /\ dq # <<>>
-  /\ LET r  == Head(dq)
-         m1 == WriteAt(mem[drid], SumSize(dlive), r)
-         l1 == Append(dlive, r)
-     IN /\ SizeDue(l1) => fl
-        /\ mem' = [mem EXCEPT ![drid] = m1]
-        /\ dq' = Tail(dq)
-        /\ IF fl
-             THEN /\ emitted' = Append(emitted, Pack("d", l1, dcount + 1, drid, m1, k))
-                  /\ dlive' = <<>> /\ dcount' = 0
-             ELSE /\ dlive' = l1 /\ dcount' = dcount + 1 /\ UNCHANGED emitted
-  /\ UNCHANGED <<mode, settings, configured, queue, accB, refused, live, count, firstTime, acall,
-                 dactive, drid, accD, stopped, blocked>>
-
-DTail(k) ==
-  /\ dactive /\ dq = <<>> /\ dlive # <<>>
-  /\ emitted' = Append(emitted, Pack("d", dlive, dcount, drid, mem[drid], k))
-  /\ dlive' = <<>> /\ dcount' = 0
-  /\ UNCHANGED <<mode, settings, configured, queue, accB, refused, mem, live, count, firstTime, acall,
-                 dactive, dq, drid, accD, stopped, blocked>>
+  /\ LET n  == PrefixLen(dq, 1, 0)
+         b  == SubSeq(dq, 1, n)
+     IN /\ mem' = [mem EXCEPT ![drid] = WriteAt(@, 0, Encoding(b))]
+        /\ emitted' = Append(emitted, Pack("d", b, n, drid, SumSize(b), k))
+        /\ dq' = SubSeq(dq, n + 1, Len(dq))
+  /\ UNCHANGED <<mode, settings, configured, queue, accB, refused, blen, live, count, firstTime, wpc, wcur, wret,
+                 dactive, drid, accD, stopped>>
 
 DirectEnd ==
-  /\ dactive /\ dq = <<>> /\ dlive = <<>>
+  /\ dactive /\ dq = <<>>
   /\ dactive' = FALSE
-  /\ UNCHANGED <<mode, settings, configured, queue, accB, refused, mem, live, count, firstTime, acall,
-                 dq, dlive, dcount, drid, accD, emitted, stopped, blocked>>
+  /\ UNCHANGED <<mode, settings, configured, queue, accB, refused, mem, blen, live, count, firstTime, wpc, wcur, wret,
+                 dq, drid, accD, emitted, stopped>>
 
 -----------------------------------------------------------------------------
 (* the property *)
@@ -280,19 +292,20 @@ RecsOf(ps, path) ==     \* concatenated record lists of the packs of one path, i
 \* already emitted, in the buffer, being appended, or still queued; once the worker has
 \* returned nothing is left behind.  A refused record is nowhere.
 ExactlyOnceInOrder ==
-  /\ RecsOf(emitted, "b") \o live \o acall \o queue = accB
-  /\ RecsOf(emitted, "d") \o dlive \o dq = accD
-  /\ stopped = "done" => queue = <<>> /\ live = <<>>
-  /\ ~dactive => dlive = <<>> /\ dq = <<>>
+  /\ RecsOf(emitted, "b") \o (IF wpc = "sent" THEN <<>> ELSE live) \o wcur \o queue = accB
+  /\ RecsOf(emitted, "d") \o dq = accD
+  /\ wpc = "done" => queue = <<>> /\ live = <<>>
+  /\ ~dactive => dq = <<>>
 
 CountMatches ==
   /\ \A i \in 1..Len(emitted) : emitted[i].n = Len(emitted[i].recs) /\ emitted[i].n > 0
-  /\ count = Len(live) /\ dcount = Len(dlive)
+  /\ count = Len(live)
 
 \* at hand-over the payload is exactly the encodings of the pack's records, in order
 Decodable ==
-  \A i \in 1..Len(emitted) : /\ emitted[i].snap = Encoding(emitted[i].recs)
-                             /\ emitted[i].ulen = SumSize(emitted[i].recs)
+  /\ \A i \in 1..Len(emitted) : /\ emitted[i].snap = Encoding(emitted[i].recs)
+                                /\ emitted[i].ulen = SumSize(emitted[i].recs)
+  /\ blen = SumSize(live) /\ SubSeq(mem[1], 1, blen) = Encoding(live)
 
 ZipIff == \A i \in 1..Len(emitted) : emitted[i].zipped <=> emitted[i].ulen >= emitted[i].zmin
 
@@ -302,12 +315,11 @@ DefaultsInForce == ~configured => settings = Defaults
 HandedOverIsImmutable ==
   \A i \in 1..Len(emitted) : emitted[i].kept => Content(emitted[i]) = emitted[i].snap
 
-\* FlushWhenDue, as a property of steps: a buffer that grew in a step has not reached a limit in
-\* force (a buffer that reaches one is flushed in the very step that made it so) ...
+\* FlushWhenDue, as a property of steps: a buffer that grew in a step and is not on its way to the client
+\* has not reached a limit in force; nothing stays behind a stop or the end of a direct call
+\* (part of ExactlyOnceInOrder)
 FlushWhenDueStep ==
-  /\ count' > count   => ~MustFlush(live', firstTime', live'[Len(live')])
-  /\ dcount' > dcount => ~SizeDue(dlive')
-\* ... and nothing stays behind a stop or the end of a direct call (part of ExactlyOnceInOrder)
+  (count' = count + 1 /\ wpc' # "flush") => ~MustFlush(blen', firstTime', live'[Len(live')])
 
 Inv == ExactlyOnceInOrder /\ CountMatches /\ Decodable /\ ZipIff /\ DefaultsInForce /\ HandedOverIsImmutable
 =============================================================================
